@@ -542,7 +542,8 @@ theorem pullTombs_noTombs (d : Defects) (src : Site) (e : Ent) (dst : Site) (hn 
       (pullTombs d src e dst).docs = dst.docs ∧ (pullTombs d src e dst).indexOn = dst.indexOn ∧
       (pullTombs d src e dst).tombs = dst.tombs := by
   unfold pullTombs
-  simp [hn]
+  have hf : dst.rows.filter (fun _ => false) = [] := List.filter_eq_nil_iff.mpr (by simp)
+  simp [hn, hf]
 
 theorem pullTombs_inv (d : Defects) (src : Site) (hd : d.deleteLeavesIndex = false ∨ src.tombs = []) (e : Ent)
     {dst : Site} (h : SInv dst) :
